@@ -374,6 +374,11 @@ func (r Reason) In(reasons ...Reason) (ok bool) { return slices.Contains(reasons
 
 // SetEnabled sets the status of the *DNSFilter.
 func (d *DNSFilter) SetEnabled(enabled bool) {
+	// Also take confMu, since [DNSFilter.WriteDiskConfig] copies the whole
+	// configuration, including this field, under it.
+	d.confMu.Lock()
+	defer d.confMu.Unlock()
+
 	atomic.StoreUint32(&d.conf.enabled, mathutil.BoolToNumber[uint32](enabled))
 }
 
@@ -392,6 +397,13 @@ func (d *DNSFilter) Settings() (s *Settings) {
 
 // WriteDiskConfig - write configuration
 func (d *DNSFilter) WriteDiskConfig(c *Config) {
+	// The copy below also reads the filtering settings, the filter lists, and
+	// the custom rules, which are protected by filtersMu and not by confMu, so
+	// take both.  filtersMu is always taken first, see
+	// [DNSFilter.EnableFilters] and [DNSFilter.SetEnabled].
+	d.conf.filtersMu.RLock()
+	defer d.conf.filtersMu.RUnlock()
+
 	func() {
 		d.confMu.Lock()
 		defer d.confMu.Unlock()
@@ -399,9 +411,6 @@ func (d *DNSFilter) WriteDiskConfig(c *Config) {
 		*c = *d.conf
 		c.Rewrites = cloneRewrites(c.Rewrites)
 	}()
-
-	d.conf.filtersMu.RLock()
-	defer d.conf.filtersMu.RUnlock()
 
 	c.Filters = slices.Clone(d.conf.Filters)
 	c.WhitelistFilters = slices.Clone(d.conf.WhitelistFilters)
